@@ -74,9 +74,13 @@ def cases(tier):
             for n in (2, 3, 4, 5):
                 # "dated-ref": a shared explicit reference date that is NOT the first image's date;
                 # "append-chunks": the images after the first are appended as series of two slices
-                for tk in ("dated", "dated-ref", "times", "notime"):
+                # "dated+times": images carrying a date AND an independently given relative time; an
+                # explicit offset (also 0) keeps those times (+ offset), as the library does today
+                for tk in ("dated", "dated-ref", "times", "notime", "dated+times"):
                     for how in ("append0", "append2.5", "stack", "append-chunks"):
                         if how == "append-chunks" and n < 3:
+                            continue
+                        if tk == "dated+times" and how not in ("append0", "append2.5"):
                             continue
                         out.append({"kind": "assemble", "dim": dim, "payload": payload, "n": n, "time": tk, "how": how})
     out.sort(key=lambda c: (c["kind"] != "assemble", c["dim"], c.get("n", 0)))
@@ -326,6 +330,10 @@ def run_assemble(case, r):
         elif tk == "dated-ref":
             kw["date"] = D0 + k * DSTEP
             kw["reference_date"] = D0 - datetime.timedelta(hours=1)
+        elif tk == "dated+times":
+            kw["date"] = D0 + k * DSTEP
+            kw["reference_date"] = D0
+            kw["time"] = 5.0 * k + 1.0
         elif tk == "times":
             kw["time"] = 10.0 * k
         data = (1000 * k + np.arange(int(np.prod(full)), dtype=float)).reshape(full)
@@ -355,7 +363,7 @@ def run_assemble(case, r):
         # date, or the explicit time), shifted by the offset handed to append()
         if tk == "notime":
             return None
-        t = 90000.25 * k if tk == "dated" else (3600.0 + 90000.25 * k if tk == "dated-ref" else 10.0 * k)
+        t = 90000.25 * k if tk == "dated" else (3600.0 + 90000.25 * k if tk == "dated-ref" else (5.0 * k + 1.0 if tk == "dated+times" else 10.0 * k))
         return t + (offset if (offset and k > 0) else 0)
 
     for k in range(n):
@@ -363,7 +371,7 @@ def run_assemble(case, r):
         o = originals[k]
         r.check(np.array_equal(sl.img, o.img), cellb + "/data", "time_slice(k) of the assembled series returns the data of original k", k=k)
         r.check(sl.date == o.date, cellb + "/date", "... with the date of original k", k=k, got=str(sl.date), want=str(o.date))
-        if tk in ("dated", "dated-ref"):
+        if tk in ("dated", "dated-ref", "dated+times"):
             r.check(sl.reference_date == o.reference_date, cellb + "/time", "... with the shared reference date of the originals", k=k, got=str(sl.reference_date), want=str(o.reference_date))
         r.check(sl.time == want_time(k), cellb + "/time", "... with the relative time of original k (+ offset given to append)", k=k, got=sl.time, want=want_time(k))
         r.check(np.array_equal(np.asarray(sl.origin), np.asarray(o.origin)) and [float(x) for x in sl.dimensions] == [float(x) for x in o.dimensions] and sl.scalar == o.scalar and not sl.series, cellb + "/placement", "... and its placement and payload layout")
@@ -376,7 +384,7 @@ def run_assemble(case, r):
     # a copy) leaves the series as it was, and the longer series still returns the originals
     pre_series = digest(series)
     kw_x = {"space_dim": dim, "scalar": payload == "scalar", "dimensions": [vs[a] * shape[a] for a in range(dim)], "origin": [3.0, -2.0, 5.0][:dim]}
-    if tk in ("dated", "dated-ref"):
+    if tk in ("dated", "dated-ref", "dated+times"):
         kw_x["date"] = D0 + n * DSTEP
         kw_x["reference_date"] = originals[0].reference_date
     elif tk == "times":
